@@ -201,6 +201,15 @@ pub fn bytes_of(i: usize, size: usize, fill: u64) -> Vec<u8> {
     if size == 0 {
         return vec![];
     }
+    if fill % 4 == 3 && size >= 8 {
+        // data that already is a compressed stream (a .zst / .gz / .lz4 / .br file sent as a
+        // message): it starts with that format's magic number and does not shrink again
+        let kind = [CompKind::Zstd, CompKind::Gzip, CompKind::Zlib, CompKind::Lz4, CompKind::BrotliGeneric][((fill >> 8) % 5) as usize];
+        let inner = text_of(i, size.min(60_000), (fill >> 2) * 3 + 1);
+        if let Ok(b) = make_comp(kind, Level::Default).compress(bytes::Bytes::from(inner)) {
+            return b.to_vec();
+        }
+    }
     let mut v = format!("{i}:").into_bytes();
     if fill % 3 == 0 {
         v.resize(size.max(v.len()), (fill >> 8) as u8);
